@@ -600,6 +600,18 @@ func nativeReplay(repo, vdir, replayPath string) (bool, string) {
 		return strings.Contains(out, "DATA RACE") || strings.Contains(out, "VF-ASSERT-FAILED") || strings.Contains(out, "VF-DEADLOCK") ||
 			strings.Contains(out, "VF-PANIC") || strings.Contains(out, "panic:") || strings.Contains(out, "test timed out") || strings.Contains(out, "all goroutines are asleep")
 	}
+	if !strings.HasPrefix(doc.Label, "bmc:") && !theReplayer.race && strings.Contains(out, "VF-REPLAY-COMPLETED") &&
+		!strings.Contains(out, "VF-ASSERT-FAILED") && !strings.Contains(out, "VF-ASSUME-FAILED") && !strings.Contains(out, "panic:") {
+		// the run completed without the failure: the witness may depend on something a native run
+		// cannot be told (Go's randomised map iteration order, random draws): repeat it
+		cmd2 := exec.Command("timeout", "120", bin, "-test.run", "^TestVFReplay$", "-test.timeout", "100s", "-test.v", "-test.count", "60", "-test.failfast")
+		cmd2.Dir = repo
+		cmd2.Env = cmd.Env
+		outb2, _ := cmd2.CombinedOutput()
+		if strings.Contains(string(outb2), "VF-ASSERT-FAILED") || strings.Contains(string(outb2), "panic:") {
+			out = string(outb2)
+		}
+	}
 	if strings.HasPrefix(doc.Label, "bmc:") && !bmcHit(out) && !strings.Contains(out, "VF-ASSUME-FAILED") {
 		// second phase: many more repetitions with occasional long pauses (witnesses that need two
 		// goroutines to be delayed at the same time), stopping at the first failure
